@@ -14,6 +14,8 @@ and the pinning of memo keys against `id` reuse (object identity is abstract in 
 import FiddleModel.Lemmas.BuildMirror
 import FiddleModel.Lemmas.Basic
 import FiddleModel.Lemmas.BuildTotal
+import FiddleModel.Lemmas.CallEval
+import FiddleModel.Lemmas.Traverse
 
 namespace Fiddle
 
@@ -124,5 +126,16 @@ example : ∃ st, build shared2 [] (.ref 1) = .ok (.built 1, st) ∧ st.log = [0
     st.out.length = 2 ∧
     st.out[1]? = some (.container .list "" [(.index 0, .built 0), (.index 1, .built 0)]) := by
   simp [build, shared2, buildVal, buildChildren, memoGet, leaf_binds]
+
+/-- The hypotheses of `C02_build_returns` are met by that configuration (so it builds). -/
+example : shared2.WellFormed ∧ shared2.Binds ∧ ∃ r st, build shared2 [] (.ref 1) = .ok (r, st) := by
+  have wf : shared2.WellFormed := Heap.wellFormed_of_B shared2 (by decide)
+  have hb : shared2.Binds := by
+    intro o ho hk vals
+    simp [shared2] at ho
+    rcases ho with rfl | rfl
+    · exact bindBuilt_ok_indep leaf [] vals _ leaf_binds
+    · cases hk
+  exact ⟨wf, hb, C02_build_returns shared2 wf hb (.ref 1) (by intro i hi; cases hi; simp [shared2])⟩
 
 end Fiddle
